@@ -232,6 +232,79 @@ def forwarded_object_case(ctx, seed):
         check_map(ctx, to_map(ctx, pb.playback_outputs, w, 'playback_outputs'), exp_rep, op_rep, w, 'playback_outputs')
 
 
+def overlapping_operations_case(ctx, variant):
+    """Two requests overlap in time on two threads of a service that has ONE recorder. Whatever the recorder does with the second one
+    (refuse it, record it separately, let it run unrecorded): the recording of the first holds exactly the output calls the first made."""
+    import threading
+    from playback.tape_recorder import TapeRecorder
+    kind = ('memory', 'file', 's3')[variant % 3]
+    with open_box(kind) as box:
+        spy = SpyCassette(box.cassette)
+        rec = TapeRecorder(spy)
+        rec.enable_recording()
+        first_sent_one, second_done = threading.Event(), threading.Event()
+        outcome = {}
+
+        class Requests(object):
+            @rec.intercept_output('sink.write')
+            def write(self, row):
+                return 'written'
+
+            @rec.intercept_input('source.read')
+            def read(self, key):
+                return ['value of', key]
+
+            @rec.operation()
+            def first(self):
+                self.write(['first', 1, self.read('a')])
+                first_sent_one.set()
+                second_done.wait(10)
+                self.write(['first', 2, self.read('b')])
+                return 'first done'
+
+            @rec.operation()
+            def second(self):
+                self.write(['second', 1, self.read('a' if variant % 2 else 'c')])
+                self.write(['second', 2])
+                return 'second done'
+
+        def run_second():
+            first_sent_one.wait(10)
+            try:
+                outcome['second'] = Requests().second()
+            except BaseException as ex:  # noqa
+                outcome['second'] = ex
+            finally:
+                second_done.set()
+        t = threading.Thread(target=run_second)
+        t.start()
+        try:
+            outcome['first'] = Requests().first()
+        except BaseException as ex:  # noqa
+            outcome['first'] = ex
+        t.join(20)
+        w = {'overlapping_operations': True, 'variant': variant, 'cassette': kind}
+        ctx.case(w)
+        ctx.count('overlapping_operation_pairs')
+        if isinstance(outcome.get('second'), BaseException):
+            ctx.count('second_overlapping_operation_refused_with_' + type(outcome['second']).__name__)
+        saves = [e for e in spy.log if e[0] == 'save']
+        for e in saves:
+            try:
+                got = box.reader().get_recording(e[2])
+            except Exception:
+                continue
+            outs = sorted((k, got.get_data(k)) for k in got.get_all_keys() if k.startswith('output: sink.write') and k.endswith('.output'))
+            rows = [v['args'][0] for _, v in outs]
+            owners = set(r[0] for r in rows)
+            ctx.count('entries_checked_recorded_outputs', len(rows))
+            if len(owners) > 1 or [r[1] for r in rows] != list(range(1, len(rows) + 1)):
+                ctx.violation('a recording holds output calls of another, overlapping operation (or its own calls under shifted ordinals)', dict(w, rows=repr(rows)[:200]))
+            ins = dict((k, got.get_data(k)) for k in got.get_all_keys() if k.startswith('input: source.read'))
+            if owners == {'first'} and len(ins) != 2:
+                ctx.violation('the recording of the first operation holds %d inputs, it read 2' % len(ins), w)
+
+
 def nested_recorders_case(ctx, seed):
     """Two services, each with its own recorder, in one process: an operation of the pricing service (recorder Y) is called from inside
     the real implementation of an input that the orders service (recorder X) intercepts. Y's recording must hold exactly what Y's
@@ -291,6 +364,9 @@ def run(ctx):
         forwarded_object_case(ctx, base + i)
     for i in range(ctx.budget(20, 600)):
         nested_recorders_case(ctx, base + i)
+    if ctx.shard == 0:
+        for v in range(6):
+            overlapping_operations_case(ctx, v)
     rng = random.Random(base)
     p = gen_program(rng, max_out_decls=3, max_in_decls=2)
     p2, edits = edit_program(p, rng)
@@ -302,6 +378,8 @@ def run(ctx):
 def replay(ctx, w):
     if w.get('forwarded_object'):
         return forwarded_object_case(ctx, w['case_seed'])
+    if w.get('overlapping_operations'):
+        return overlapping_operations_case(ctx, w['variant'])
     if w.get('nested_recorders'):
         return nested_recorders_case(ctx, w['case_seed'])
     run_case(ctx, w['case_seed'])
